@@ -30,6 +30,14 @@
         Which one the tree under check has is read from the source on every run
         (translators/fmtbuf.py -> TVGen.Gen_fmtbuf.clear_policy).
 
+    (4) [res] is IGNORED by the code (with [log_internal_errors] it is reported on stderr, never on the
+        writer): a sink that returns an [io::Error] changes nothing in what follows.  The only way step (4)
+        can influence the buffer is by not returning at all: a sink that PANICS inside [write] unwinds out
+        of the closure just as a panicking [Debug] impl does in (2), with the whole record still in the
+        buffer.  Whether the write handed to the writer made for [m] unwinds is an input of the protocol:
+        [unw m bytes] (computed from the writer algebra and the sinks' fault scripts in RecordModel.v;
+        [no_unwind], the constant [false], for sinks that never panic).
+
     The model is polymorphic in the buffer's element type [A] (bytes for the full/compact formats whose
     text is modelled in RecordModel.v, opaque chunk identifiers for pretty/json) and in the metadata [M]. *)
 From Coq Require Export List NArith Bool.
@@ -67,33 +75,46 @@ Arguments AWrite {A M} _ _.
 
 Record cfg := Cfg { pol : policy; lie : bool (* log_internal_errors *) }.
 
+(** [unw m b]: the [write_all] of [b] on the writer that [make_writer_for(m)] returned does not return (a
+    sink panicked).  Everything below that runs the protocol takes it as its first argument. *)
+Definition no_unwind {A M : Type} : M -> list A -> bool := fun _ _ => false.
+
+(** What an unwinding leaves in the selected buffer. *)
+Definition left_behind {A} (c : cfg) (x : list A) : list A := match pol c with ClearGuard => [] | _ => x end.
+
 (** Steps (2)-(5) on the buffer selected by (1).  [fresh]: the thread-local was already borrowed.
-    Returns the thread-local buffer afterwards and the calls made. *)
-Definition finish {A M} (c : cfg) (fresh : bool) (buf : list A) (m : M) (out : outcome A) : list A * list (action A M) :=
+    Returns the thread-local buffer afterwards and the calls made.  The [io::Result] of the write is not
+    an input: the code ignores it. *)
+Definition finish {A M} (unw : M -> list A -> bool) (c : cfg) (fresh : bool) (buf : list A) (m : M) (out : outcome A)
+  : list A * list (action A M) :=
   let b0 := if fresh then [] else buf in
   let b1 := match pol c with ClearBefore => [] | _ => b0 end in
   let keep (x : list A) := if fresh then buf else x in
   match out with
-  | OOk r => (keep [], [AMake m; AWrite m (b1 ++ r)])
-  | OErr p line => (keep [], if lie c then [AMake m; AWrite m line] else [])
-  | OPanic p => (keep (match pol c with ClearGuard => [] | _ => b1 ++ p end), [])
+  | OOk r => (keep (if unw m (b1 ++ r) then left_behind c (b1 ++ r) else []), [AMake m; AWrite m (b1 ++ r)])
+  | OErr p line =>
+      if lie c then (keep (if unw m line then left_behind c (b1 ++ p) else []), [AMake m; AWrite m line])
+      else (keep [], [])
+  | OPanic p => (keep (left_behind c (b1 ++ p)), [])
   end.
 
-Fixpoint on_event {A M} (c : cfg) (fresh : bool) (buf : list A) (e : event A M) {struct e} : list A * list (action A M) :=
+Fixpoint on_event {A M} (unw : M -> list A -> bool) (c : cfg) (fresh : bool) (buf : list A) (e : event A M) {struct e}
+  : list A * list (action A M) :=
   match e with
   | Ev m nested out =>
       (* the nested events run while this event holds the borrow: they all take the fresh-String path *)
-      let inner := flat_map (fun n => snd (on_event c true [] n)) nested in
-      let (b, a) := finish c fresh buf m out in
+      let inner := flat_map (fun n => snd (on_event unw c true [] n)) nested in
+      let (b, a) := finish unw c fresh buf m out in
       (b, inner ++ a)
   end.
 
 (** A thread's history: events reaching the layer one after the other (not nested in each other). *)
-Fixpoint run_thread {A M} (c : cfg) (buf : list A) (es : list (event A M)) : list A * list (action A M) :=
+Fixpoint run_thread {A M} (unw : M -> list A -> bool) (c : cfg) (buf : list A) (es : list (event A M))
+  : list A * list (action A M) :=
   match es with
   | [] => (buf, [])
-  | e :: t => let (b, a) := on_event c false buf e in
-              let (b', a') := run_thread c b t in (b', a ++ a')
+  | e :: t => let (b, a) := on_event unw c false buf e in
+              let (b', a') := run_thread unw c b t in (b', a ++ a')
   end.
 
 (** ** Specification *)
@@ -115,13 +136,21 @@ Fixpoint records {A M} (lie : bool) (e : event A M) : list (M * list A) :=
 Definition spec_actions {A M} (rs : list (M * list A)) : list (action A M) :=
   flat_map (fun r => [AMake (fst r); AWrite (fst r) (snd r)]) rs.
 
-Definition aborted {A M} (e : event A M) : bool :=
-  match e with Ev _ _ (OPanic _) => true | _ => false end.
+(** The closure was left by unwinding: a panicking [Debug] impl during (2), or a panicking sink during
+    (4) (of the record, or of the "Unable to format" line when [log_internal_errors] is on). *)
+Definition aborted {A M} (unw : M -> list A -> bool) (l : bool) (e : event A M) : bool :=
+  match e with
+  | Ev _ _ (OPanic _) => true
+  | Ev m _ (OOk r) => unw m r
+  | Ev m _ (OErr _ line) => l && unw m line
+  end.
 
 (** No top-level event of the history was aborted by a panic.  (A panic in a *nested* event is harmless
     under every policy: its fresh [String] is dropped by the unwinding.) *)
-Definition NoAbortedFormat {A M} (es : list (event A M)) : Prop := Forall (fun e => aborted e = false) es.
-Definition no_aborted_format {A M} (es : list (event A M)) : bool := forallb (fun e => negb (aborted e)) es.
+Definition NoAbortedFormat {A M} (unw : M -> list A -> bool) (l : bool) (es : list (event A M)) : Prop :=
+  Forall (fun e => aborted unw l e = false) es.
+Definition no_aborted_format {A M} (unw : M -> list A -> bool) (l : bool) (es : list (event A M)) : bool :=
+  forallb (fun e => negb (aborted unw l e)) es.
 
 (** ** Micro-step machine, for schedules *)
 
@@ -132,12 +161,13 @@ Arguments Item {A M} _ _ _.
 Fixpoint flatten {A M} (fresh : bool) (e : event A M) : list (item A M) :=
   match e with Ev m nested out => flat_map (flatten true) nested ++ [Item fresh m out] end.
 
-Fixpoint trace_items {A M} (c : cfg) (buf : list A) (items : list (item A M)) : list A * list (action A M) :=
+Fixpoint trace_items {A M} (unw : M -> list A -> bool) (c : cfg) (buf : list A) (items : list (item A M))
+  : list A * list (action A M) :=
   match items with
   | [] => (buf, [])
   | Item fresh m out :: rest =>
-      let (b, a) := finish c fresh buf m out in
-      let (b', a') := trace_items c b rest in (b', a ++ a')
+      let (b, a) := finish unw c fresh buf m out in
+      let (b', a') := trace_items unw c b rest in (b', a ++ a')
   end.
 
 (** Where a thread is inside one [on_event]: nothing pending / formatted, writer not yet made /
@@ -156,9 +186,14 @@ Arguments t_buf {A M} _.
 Arguments t_phase {A M} _.
 Arguments t_todo {A M} _.
 
+(** The thread-local buffer once the write of [w] (on the writer made for [m]) is over: cleared when the
+    write returned ([Ok] or [Err]: the result is ignored), left as it is when it unwound. *)
+Definition after_write {A M} (unw : M -> list A -> bool) (c : cfg) (s : tstate A M) (fresh : bool) (m : M) (w : list A) : list A :=
+  if fresh then t_buf s else if unw m w then left_behind c (t_buf s) else [].
+
 (** One micro-step of one thread; it reads and writes only that thread's own state.  The three
     micro-steps of a record: "format into own buffer" (silent), "make_writer_for", "write" (+ clear). *)
-Definition tstep {A M} (c : cfg) (s : tstate A M) : option (tstate A M * option (action A M)) :=
+Definition tstep {A M} (unw : M -> list A -> bool) (c : cfg) (s : tstate A M) : option (tstate A M * option (action A M)) :=
   match t_phase s with
   | PIdle =>
       match t_todo s with
@@ -172,19 +207,19 @@ Definition tstep {A M} (c : cfg) (s : tstate A M) : option (tstate A M * option 
           | OErr p line =>
               if lie c then Some (TS (keep (b1 ++ p)) (PFormatted fresh m line) rest, None)
               else Some (TS (keep []) PIdle rest, None)
-          | OPanic p => Some (TS (keep (match pol c with ClearGuard => [] | _ => b1 ++ p end)) PIdle rest, None)
+          | OPanic p => Some (TS (keep (left_behind c (b1 ++ p))) PIdle rest, None)
           end
       end
   | PFormatted fresh m w => Some (TS (t_buf s) (PMade fresh m w) (t_todo s), Some (AMake m))
-  | PMade fresh m w => Some (TS (if fresh then t_buf s else []) PIdle (t_todo s), Some (AWrite m w))
+  | PMade fresh m w => Some (TS (after_write unw c s fresh m w) PIdle (t_todo s), Some (AWrite m w))
   end.
 
 (** What a thread still has to emit when run alone from state [s]. *)
-Definition remaining {A M} (c : cfg) (s : tstate A M) : list (action A M) :=
+Definition remaining {A M} (unw : M -> list A -> bool) (c : cfg) (s : tstate A M) : list (action A M) :=
   match t_phase s with
-  | PIdle => snd (trace_items c (t_buf s) (t_todo s))
-  | PFormatted fresh m w => AMake m :: AWrite m w :: snd (trace_items c (if fresh then t_buf s else []) (t_todo s))
-  | PMade fresh m w => AWrite m w :: snd (trace_items c (if fresh then t_buf s else []) (t_todo s))
+  | PIdle => snd (trace_items unw c (t_buf s) (t_todo s))
+  | PFormatted fresh m w => AMake m :: AWrite m w :: snd (trace_items unw c (after_write unw c s fresh m w) (t_todo s))
+  | PMade fresh m w => AWrite m w :: snd (trace_items unw c (after_write unw c s fresh m w) (t_todo s))
   end.
 
 Definition finished {A M} (s : tstate A M) : bool :=
@@ -201,10 +236,10 @@ Fixpoint upd {X} (n : nat) (x : X) (l : list X) : list X :=
   | h :: t, S k => h :: upd k x t
   end.
 
-Definition gstep {A M} (c : cfg) (g : gstate A M) (t : nat) : gstate A M :=
+Definition gstep {A M} (unw : M -> list A -> bool) (c : cfg) (g : gstate A M) (t : nat) : gstate A M :=
   match nth_error (fst g) t with
   | Some s =>
-      match tstep c s with
+      match tstep unw c s with
       | Some (s', oa) => (upd t s' (fst g), snd g ++ match oa with Some a => [(t, a)] | None => [] end)
       | None => g
       end
@@ -212,7 +247,8 @@ Definition gstep {A M} (c : cfg) (g : gstate A M) (t : nat) : gstate A M :=
   end.
 
 (** A schedule is any list of thread indices (an index out of range or a finished thread stutters). *)
-Definition run_sched {A M} (c : cfg) (sched : list nat) (g : gstate A M) : gstate A M := fold_left (gstep c) sched g.
+Definition run_sched {A M} (unw : M -> list A -> bool) (c : cfg) (sched : list nat) (g : gstate A M) : gstate A M :=
+  fold_left (gstep unw c) sched g.
 
 Definition init {A M} (progs : list (list (event A M))) : gstate A M :=
   (map (fun es => TS [] PIdle (flat_map (flatten false) es)) progs, []).
